@@ -120,12 +120,29 @@ def c19(cx):
 def c20(cx):
     import json, os
     cx.assumptions += ["the acceptance decision at the uint32 extremes is read from the server's own log line (out of bounds timeslot)",
-                       "the literals 3200 / 432 / 4032 are not exported by the code; they are pinned behaviourally by the C01 and C03 traces "
-                       "and used here as the specification's constants; the rotation period comes from the production build",
+                       "the rotation trigger, acceptance half-width and window length are read from the source type-checked under the "
+                       "production build configuration (go/types constant values of the comparisons in launchMigrateReports / "
+                       "managedHandleEquipmentReport and the array length of equipmentReports); the rotation period comes from the production binary",
                        "TimeslotToUnix is exact only up to slot 14316557 (uint32 product), the bound the property names"]
     q = cx.tier == QUICK
     prod = json.loads(cx.run_tool("prodconsts", "verif"))
     period = -(-prod["server"]["ReportMigrationFrequencyMs"] // 300000)
+    # the trigger, the half-width and the window length are literals (or build-specific constants) of the code:
+    # they are read from the source type-checked under the production build configuration
+    core = __import__("core")
+    kx = json.loads(cx.run_tool("constx", "verif", ["-repo", core.REPO, "-tags", "verif"]))
+    def one(func, ops, need=""):
+        c = [x for x in kx["comparisons"] if x["func"] == func and x["op"] in ops and need in x["text"]
+             and len(x["consts"]) == 1 and x["side"] == [1]]
+        if len(c) != 1:
+            raise core.Broken("cannot identify the comparison (%s, %s) in the production source: %r" % (func, ops, c))
+        return c[0]["consts"][0] - (1 if c[0]["op"] == ">=" else 0), c[0]["text"]
+    trigger, ttext = one("launchMigrateReports", (">", ">="))
+    halfw, htext = one("managedHandleEquipmentReport", (">", ">="), "now")
+    window = kx.get("equipmentReports_len")
+    if not window or kx.get("ReportMigrationFrequency_ms") != prod["server"]["ReportMigrationFrequencyMs"]:
+        raise core.Broken("production constants: source and binary disagree: %r" % kx)
+    cx.step("constx", trigger=trigger, trigger_expr=ttext, halfwidth=halfw, halfwidth_expr=htext, window=window, period_slots=period)
     for sl in (3, 5) if q else (3, 5, 7, 16):
         cx.mc("MC_Timeslot", "MC_Timeslot.cfg", {"SlotLen": sl, "TDefects": "{}"},
               workers=4, note="toy word 2^8: all unix times, all (now, timeslot) pairs; 65536 window comparisons")
@@ -137,7 +154,7 @@ def c20(cx):
     r = cx.drv_ok("timeslot")
     ev = {"a": "Prod", "genesis": prod["genesis"], "current": prod["current"],
           "slot_before": (prod["unix_before"] - 1700352000) // 300, "slot_after": (prod["unix_after"] - 1700352000) // 300,
-          "trigger": 3200, "period": period, "window": 4032, "scn": "production-build", "seq": 0}
+          "trigger": trigger, "period": period, "halfw": halfw, "window": window, "scn": "production-build", "seq": 0}
     with open(r["trace"], "a") as f:
         f.write(json.dumps(ev) + "\n")
     cx.cov["samples"].append(ev)
@@ -201,9 +218,14 @@ def c11(cx):
                        "a hanging server is modelled with a bounded delay (400 ms); the client has no read deadline, an endpoint that never answers keeps "
                        "that one sync goroutine waiting while the report loop goes on (checked by the loop probe)"]
     q = cx.tier == QUICK
-    cx.mc("MC_ClientSrv", "MC_ClientSrv.cfg", {"CDefects": "{}", "MaxRounds": 2 if q else 3},
+    cx.mc("MC_ClientSrv", "MC_ClientSrv.cfg", {"CDefects": "{}", "MaxRounds": 2 if q else 3, "Conc": 2},
           note="1..3 servers, every banned subset, every pick order and failure pattern over <=5 attempts, replies with lists and "
-               "migration orders, restarts; NeverSelectBanned asserted at every pick, LockFreeWhenIdle, BannedMonotone")
+               "migration orders, restarts, TWO OVERLAPPING ROUNDS interleaved in every way (a round waiting for a slow server "
+               "while the loop starts the next); NeverSelectBanned asserted at every pick, LockFreeWhenIdle, BannedMonotone")
+    ok, _ = cx.mc("MC_ClientSrv", "MC_ClientSrv.cfg", {"CDefects": '{"frozenbans"}', "MaxRounds": 2, "Conc": 2}, expect_ok=False,
+                  note="non-vacuity: reading the ban flags once per round (deviation frozenbans) is refuted by NeverSelectBanned")
+    if ok:
+        raise __import__("core").Broken("MC_ClientSrv no longer refutes the deviation 'frozenbans': NeverSelectBanned is vacuous")
     cx.mc("MC_SyncReply", "MC_SyncReply.cfg", {"CDefects": "{}"}, workers=4, note="no reply shape reaches the parser's PANIC outcome")
     lockcfg(cx, ["client", "glow"], violate_pkgs=("client", "glow"))
     r = cx.drv_ok("rounds", ["--only", "fault"])
@@ -218,7 +240,7 @@ def c11(cx):
 def c17(cx):
     cx.assumptions += ["signatures abstract (ground truth from the harness's signing record)"]
     q = cx.tier == QUICK
-    cx.mc("MC_ClientSrv", "MC_ClientSrv.cfg", {"CDefects": "{}", "MaxRounds": 2 if q else 3},
+    cx.mc("MC_ClientSrv", "MC_ClientSrv.cfg", {"CDefects": "{}", "MaxRounds": 2 if q else 4, "Conc": 1},
           note="MigrateOnlyIfDoublySigned, ListOnlyBySignature asserted at every applied reply; EntryFrozenUnlessBan, BannedMonotone "
                "(memory and disk), PersistEqualsAdopted")
     r = cx.drv_ok("rounds", ["--only", "lists"])
